@@ -60,14 +60,22 @@ theorem hex2_ok (n : Nat) : (hex2 n).all isHexDigit = true ∧ 2 ≤ (hex2 n).le
     have := hexDigits_len 15 (n / 16) (by decide)
     omega
 
-theorem rgb_ok (r g b : Nat) : colourOk (hex2 r ++ hex2 g ++ hex2 b) = true := by
+theorem hex2_len2 (n : Nat) (h : n ≤ 255) : (hex2 n).length = 2 := by
+  unfold hex2
+  split
+  · rfl
+  · rename_i h16
+    have h2 : n / 16 < 16 := by omega
+    simp [hexDigits, h16, h2]
+
+theorem rgb_ok (r g b : Nat) (h : r ≤ 255 ∧ g ≤ 255 ∧ b ≤ 255) : colourOk (hex2 r ++ hex2 g ++ hex2 b) = true := by
   have h1 := hex2_ok r
   have h2 := hex2_ok g
   have h3 := hex2_ok b
   unfold colourOk isHexStr
   simp only [List.length_append, List.all_append, h1.1, h2.1, h3.1, Bool.and_self, Bool.and_true,
-    Bool.or_eq_true, decide_eq_true_eq]
-  right; omega
+    Bool.or_eq_true, decide_eq_true_eq, hex2_len2 r h.1, hex2_len2 g h.2.1, hex2_len2 b h.2.2]
+  right; trivial
 
 /-! the tables only contain documented names / hex strings -/
 
@@ -162,7 +170,10 @@ theorem sgrLoop_ok (dflt : Attr) (hd : AttrOk dflt) (fuel : Nat) (l : List Nat) 
               · split
                 · split
                   · rename_i r g b rest3
-                    exact ih _ _ (setColor_ok _ _ a (rgb_ok r g b) ha)
+                    split
+                    · rename_i hr
+                      exact ih _ _ (setColor_ok _ _ a (rgb_ok r g b hr) ha)
+                    · exact ih _ _ ha
                   · exact ha
                 · exact ih _ _ ha
           · exact ih _ _ ha
